@@ -556,8 +556,25 @@ def run_C17(ck):
         else:
             reqs.append('ref_lzma2 lenient=1 chunks=Z3:%d,%d,%d:0:%s' % (lc, lp, pbits, pb.text(True) + '.L1'))
             metas.append(('marker_inside_chunk', pb.n, 0))
-    for enc, (desc, n, d) in zip(ref_encode(reqs), metas):
+    multi = []
+    for k in range(40 if ck.tier == 'quick' else 300):
+        pre = rng.bytes(rng.range(1, 60))
+        pb = ProgBuilder(None)
+        for _ in range(rng.range(1, 10)): pb.random_sym(rng, 2)
+        pb.match(pick_dist(rng, pb.maxd()), rng.range(3, 200))
+        lc, lp, pbits = rand_props(rng, lzma2=True)
+        cls = rng.choice([3, 3, 2])
+        reqs.append('ref_lzma2 chunks=U1:%s/Z%d:%d,%d,%d:0:%s' % (hx(pre), cls, lc, lp, pbits, pb.text()))
+        d = rng.choice([len(pre), len(pre), 1, 2])
+        metas.append(('unpacked_too_small_in_later_chunk', pb.n, min(d, pb.n - 1), 3 + len(pre)))
+    for enc, meta in zip(ref_encode(reqs), metas):
         if enc is None: raise InfraError('reference serialiser rejected a C17 program')
+        if len(meta) == 4:
+            desc, n, d, off = meta
+            b = bytearray(enc[0]); un = n - d
+            b[off] = (b[off] & 0xE0) | ((un - 1) >> 16); b[off + 1:off + 3] = struct.pack('>H', (un - 1) & 0xFFFF)
+            add(desc, bytes(b), rng.chance(1, 4)); continue
+        desc, n, d = meta
         b = bytearray(enc[0])
         if desc == 'unpacked_too_small_overshoot':
             un = n - d
@@ -901,6 +918,22 @@ def run_C09(ck):
             desc = bad_copy(pbld, None)
             reqs.append('ref_lzma2 lenient=1 chunks=U1:%s/Z3:%d,%d,%d:0:%s' % (hx(pre), lc, lp, pb3, pbld.text()))
             metas.append({'api': 'lzma2', 'desc': desc, 'produced': pbld.n, 'before_reset': len(pre)})
+    for k in range(60 if quick else 400):
+        lc, lp, pb3 = rand_props(rng)
+        first = rng.choice(['S', 'R0,%d' % pick_len(rng), 'R1,%d' % pick_len(rng), 'R3,%d' % pick_len(rng), 'M1,%d' % pick_len(rng)])
+        which = rng.below(3)
+        if which == 0:
+            reqs.append('ref_lzma lenient=1 lc=%d lp=%d pb=%d dict=%d size=none prog=%s' % (lc, lp, pb3, rng.choice([0, 4096, 65536]), first))
+            metas.append({'api': 'lzma', 'desc': 'copy as the first symbol of the stream: ' + first, 'produced': 0})
+        elif which == 1:
+            d = rng.choice([1, 2, 8, 4096])
+            reqs.append('ref_payload lenient=1 lc=%d lp=%d pb=%d window=%d prog=%s' % (lc, lp, pb3, d, first))
+            metas.append({'api': 'raw', 'dict': d, 'props': (lc, lp, pb3), 'desc': 'copy as the first symbol: ' + first, 'produced': 0})
+        else:
+            lc, lp, pb3 = rand_props(rng, lzma2=True)
+            pre = 'U1:%s/' % hx(rng.bytes(rng.range(1, 9))) if rng.chance(1, 2) else ''
+            reqs.append('ref_lzma2 lenient=1 chunks=%sZ3:%d,%d,%d:0:%s' % (pre, lc, lp, pb3, first))
+            metas.append({'api': 'lzma2', 'desc': 'copy as the first symbol after a dictionary reset: ' + first, 'produced': 0})
     for k in range(40 if quick else 300):
         lc, lp, pb3 = rand_props(rng, lzma2=True)
         pbld = ProgBuilder(None)
@@ -1006,7 +1039,8 @@ def run_C11(ck):
     cases = []
     RD = lambda: rng.choice(['all', '1', '2,9', 'std:slice', 'std:cursor', 'std:buf:%d' % rng.range(1, 64), 'std:buf:1'])
     for s in gen_lzma_streams(rng, 120 if quick else 1000, big_every=0, max_syms=40):
-        trail = rng.bytes(rng.choice([0, 1, 2, 5, 19, 20, 21, 40]))
+        tl = rng.choice([0, 1, 2, 5, 19, 20, 21, 40])
+        trail = rng.choice([rng.bytes(tl), bytes(tl), bytes(tl) + rng.bytes(1) if tl else b''])     # random, all-zero, zeros then one byte
         b = s['bytes']
         if s['n'] == 0 and rng.chance(1, 2): pass
         if s['style'] == 'sized':
@@ -1017,7 +1051,8 @@ def run_C11(ck):
         ck.count('lzma_' + s['style'])
     pool = gen_lzma2_streams(rng, 80 if quick else 500)
     for s in pool:
-        trail = rng.bytes(rng.choice([0, 1, 3, 8, 40]))
+        tl = rng.choice([0, 1, 3, 8, 40])
+        trail = rng.choice([rng.bytes(tl), bytes(tl)])
         cases.append({'line': 'lzma2_dec in=%s rd=%s' % (hx(s['bytes'] + trail), RD()), 'meta': {'kind': 'lzma2', 'trail': len(trail)}, 'expect_pos': len(s['bytes']), 'expect_out': s['out']})
         ck.count('lzma2')
     for f in gen_xz_files(rng, 60 if quick else 400, [p for p in pool if len(p['bytes']) < 3000]):
@@ -1139,7 +1174,7 @@ def run_C13(ck):
     quick = ck.tier == 'quick'
     inputs = []
     for s in gen_lzma_streams(rng, 25 if quick else 200, big_every=9, max_syms=40):
-        for kind, data, opt in lzma_variants(rng, s)[:6]:
+        for kind, data, opt in lzma_variants(rng, s):
             inputs.append(('lzma_dec opt=%s in=%s' % (opt, hx(data + (rng.bytes(5) if kind == 'valid' and s['style'] == 'sized' else b''))), kind))
     pool = gen_lzma2_streams(rng, 25 if quick else 150)
     for s in pool:
@@ -1290,23 +1325,29 @@ def run_C15(ck):
     cases = []
     for s in gen_lzma_streams(rng, 30 if quick else 250, big_every=10, end_styles=('marker', 'sized'), max_syms=60):
         b = s['bytes']
-        cuts = range(len(b) + 1) if len(b) < 60 and not quick else sorted(set([0, 5, 12, 13, 17, 18, 19, len(b)] + [rng.range(0, len(b)) for _ in range(8)]))
+        size = 'none' if s['style'] == 'marker' else str(s['n'])
+        opt, hdr = rng.choice([('rfh', 13), ('rfh', 13), ('rhp:' + size, 13), ('up:' + size, 5), ('up:' + size, 5)])
+        if hdr == 5: b = b[:5] + b[13:]
+        elif opt.startswith('rhp'): b = b[:5] + rng.bytes(8) + b[13:]
+        cuts = range(len(b) + 1) if len(b) < 60 and not quick else sorted(set([0, 1, 4, 5, 9, 10, 12, 13, 17, 18, 19, len(b)] + [rng.range(0, len(b)) for _ in range(8)]))
         for cut in cuts:
             if cut > len(b): continue
             P = b[:cut]
             lens = chunkings(rng, len(P), rng.choice(['whole', 'bytes', 'random', 'single', 'early'])) if len(P) < 600 else chunkings(rng, len(P), rng.choice(['whole', 'single', 'random']))
+            if hdr == 5 and len(P) > 12 and rng.chance(1, 2):
+                k1 = rng.range(1, 9); lens = [k1, len(P) - k1]          # tiny first write, then a long one
             calls = ';'.join('W:%s;g' % hx(p) for p in pieces(P, lens)) + ';x'
-            c = {'line': 'stream opt=rfh allow=1 calls=%s' % calls, 'meta': {'cut': cut, 'of': len(b), 'pieces': len(lens)}, 'true_out': s['out'], 'cut': cut}
+            c = {'line': 'stream opt=%s allow=1 calls=%s' % (opt, calls), 'meta': {'cut': cut, 'of': len(b), 'pieces': len(lens), 'opt': opt}, 'true_out': s['out'], 'cut': cut, 'need': hdr + 5}
             # what is determined by the input minus the allowed look-ahead
             short = b[:max(0, cut - 64)]
-            c['short'] = {'line': 'stream opt=rfh allow=1 calls=W:%s;x' % hx(short), 'meta': {'aux': 'prefix minus 64'}}
+            c['short'] = {'line': 'stream opt=%s allow=1 calls=W:%s;x' % (opt, hx(short)), 'meta': {'aux': 'prefix minus 64'}}
             cases += [c, c['short']]
-            ck.count('prefix_in_header' if cut < 18 else 'prefix_in_payload')
+            ck.count('prefix_in_header' if cut < hdr + 5 else 'prefix_in_payload'); ck.count('opt_' + opt.split(':')[0])
     run_both(ck, cases)
     for c in cases:
         if 'short' not in c:
             judge(ck, c, ['res', 'out'], None, 'both'); continue
-        ck.note_case(c['line'], 18 <= c['cut'] < c['meta']['of'])
+        ck.note_case(c['line'], c['need'] <= c['cut'] < c['meta']['of'])
         def oracle(c):
             r = c['r']
             calls = r.get('res', '').split(';')
@@ -1314,7 +1355,7 @@ def run_C15(ck):
             if any('panic' in x for x in calls): return 'panic'
             if not is_prefix(out, c['true_out']): return 'streaming output is not a prefix of the complete output'
             if any(x.startswith('W:err') for x in calls): return 'a write of a prefix of a well-formed stream failed'
-            if c['cut'] >= 18 and calls[-1] != 'x:ok': return 'finish with allow_incomplete failed after header and coder preamble'
+            if c['cut'] >= c['need'] and calls[-1] != 'x:ok': return 'finish with allow_incomplete failed after header and coder preamble'
             gs = [int(x[2:]) for x in calls if x.startswith('g:')]
             if any(a > b_ for a, b_ in zip(gs, gs[1:])): return 'sink shrank'
             need = len(unhx(c['short']['m'].get('out', '-')))
@@ -1329,9 +1370,18 @@ def run_C16(ck):
     rng = Rng(ck.seed).fork('C16')
     quick = ck.tier == 'quick'
     cases = []
-    for s in gen_lzma_streams(rng, 60 if quick else 500, big_every=0, max_syms=40):
+    tiny = gen_lzma_streams(rng, 40 if quick else 300, big_every=0, end_styles=('marker',), max_syms=2)
+    for t_ in tiny: t_['tiny'] = True
+    for s in gen_lzma_streams(rng, 60 if quick else 500, big_every=0, max_syms=40) + tiny:
         b = s['bytes']
-        variants = [('corrupt', corrupt(rng, b, 13)), ('bad_header', bytes([rng.range(225, 255)]) + b[1:]), ('valid', b)]
+        size = 'none' if s['style'] == 'marker' else str(s['n'])
+        sopt, hdr = rng.choice([('rfh', 13), ('rfh', 13), ('rhp:' + size, 13), ('up:' + size, 5), ('up:' + size, 5)])
+        if s.get('tiny'): sopt, hdr = rng.choice([('up:none', 5), ('up:none', 5), ('rfh', 13)])
+        if hdr == 5: b = b[:5] + b[13:]
+        elif sopt.startswith('rhp'): b = b[:5] + rng.bytes(8) + b[13:]
+        variants = [('corrupt', corrupt(rng, b, hdr)), ('bad_header', bytes([rng.range(225, 255)]) + b[1:]), ('valid', b)]
+        if s.get('tiny'):
+            variants = [('marker_then_garbage', b + rng.bytes(rng.range(1, 6))), ('marker_then_garbage', b + rng.bytes(rng.range(1, 30)))]
         if s['style'] == 'sized':
             variants.append(('overlong', b + rng.bytes(rng.range(1, 400))))
             variants.append(('overlong', b + rng.bytes(rng.range(21, 90))))
@@ -1341,6 +1391,9 @@ def run_C16(ck):
                 if kind == 'overlong' and rng.chance(1, 2):
                     k = rng.choice([7, 9, 17, 18, 34, 51, 3, 13])
                     lens = [k] * (len(data) // k + 1)
+                elif kind == 'marker_then_garbage' or (hdr == 5 and rng.chance(1, 2)):
+                    k1 = rng.range(1, 9)                     # header split across writes: payload bytes stay in the staging buffer
+                    lens = [k1] + chunkings(rng, max(0, len(data) - k1), rng.choice(['whole', 'random', 'bytes']))
                 else:
                     lens = chunkings(rng, len(data), how)
                 calls = []
@@ -1352,7 +1405,7 @@ def run_C16(ck):
                 for _ in range(rng.range(1, 3)):
                     calls.append('w:%s' % hx(rng.bytes(rng.range(1, 30)))); calls.append('g')
                 calls.append('x')
-                cases.append({'line': 'stream opt=rfh calls=%s' % ';'.join(calls), 'meta': {'kind': kind, 'style': s['style'], 'n': s['n']}, 'n': s['n'], 'style': s['style'],
+                cases.append({'line': 'stream opt=%s calls=%s' % (sopt, ';'.join(calls)), 'meta': {'kind': kind, 'style': s['style'], 'n': s['n'], 'opt': sopt}, 'n': s['n'], 'style': s['style'],
                               'kind': kind, 'true_out': s['out'], 'valid_len': len(b)})
                 ck.count('kind_' + kind)
     run_both(ck, cases)
